@@ -40,8 +40,15 @@ ASSUMPTIONS = ["vp/dbparse.py + vp/formula.py read the database text as the PHRE
                "initial solutions with valence-specific totals or -redox couples are deliberately not in redox equilibrium: "
                "equations with an electron carrier (e-, O2, H2) or a species defined through one are skipped for those elements (counted)",
                "species reported with LA = -99.99 are not part of the model (read-out convention); MOL below 1e-38 counts as zero",
-               "database text with two readings is accepted under either: master species listed with different alkalinities in a "
-               "primary and a secondary line (minteq.dat Fe+3); unbalanced -no_check species without -mole_balance (minteq.v4.dat polysulfides)",
+               "database text with two readings is accepted under either: (a) a species that is master species of an element line "
+               "AND of a valence line that list different alkalinities (only minteq.dat: 'Fe Fe+3 0' / 'Fe(+3) Fe+3 -2'). The "
+               "PHREEQC-2 manual (SOLUTION_MASTER_SPECIES p.154-155: 'alkalinity -- alkalinity contribution of the master species; "
+               "the contribution of non-master species will be calculated from the alkalinities assigned to the master species'; "
+               "p.24-25: reference state 'for each element or element valence state', species alkalinity 'from the association "
+               "reaction and the alkalinity contributions of the master species') does not say which of two conflicting lines "
+               "applies; the PHREEQC-3 manual file in /repo/doc is empty. The tree uses the valence line (calc_alk: secondary "
+               "first); a change of that choice is therefore not detectable from the statement. (b) unbalanced -no_check species "
+               "without -mole_balance (minteq.v4.dat polysulfides)",
                "excluded and counted: H/O totals of an initial solution that enters a minor isotope of H/O (iso.dat ISOTOPES layer "
                "re-labels them after the speciation); total of an element that is foreign to a master species (Thermoddem CN- as N(-5)); "
                "states with a species above 1000 mol/kgw (discarded)",
@@ -1012,8 +1019,12 @@ def check_case(case, ctx):
         classes.append("excluded:isotope_layer_H_O_totals_of_initial_solution")
     if _OFF:
         classes.append("SENSITIVITY-RUN:clauses_off=" + "+".join(sorted(_OFF)))
-    if stats.get("two_readings"):
-        classes.append("database_text_with_two_readings(either_accepted)")
+    if stats.get("two_readings_stoich"):
+        classes.append("two_readings:element_sum_of_unbalanced_no_check_species_differs(either_accepted)")
+    if stats.get("two_readings_alk"):
+        classes.append("two_readings:alkalinity_sum_differs_by_master_line(minteq.dat_Fe(3),either_accepted)")
+    if case["db"] == "minteq.dat" and "Fe" in meta["elements"]:
+        classes.append("minteq.dat+Fe(alkalinity_clause_evaluated)" if stats.get("alk_checked") else "minteq.dat+Fe")
     if stats.get("alk_unknown"):
         classes.append("alkalinity_factor_unknown(sum_skipped)")
     ctx.extra["mass_action_equations"] = ctx.extra.get("mass_action_equations", 0) + stats["eq"]
@@ -1153,7 +1164,7 @@ def check_row(inf, case, sol, v, row, col, meta, stats, where):
                 raise Violation("element_total", "%s: sum over species of %s = %r, %s = %r"
                                 % (where, e, sums[0][0] if len(sums) == 1 else [x[0] for x in sums], lab, tot))
         if len(sums) > 1 and not close(sums[0][0], sums[1][0], TOL_REL, floor=1e-30):
-            stats["two_readings"] = stats.get("two_readings", 0) + 1
+            stats["two_readings_stoich"] = stats.get("two_readings_stoich", 0) + 1
         stats["bal"] += 1
     zsum = sum(db.species[s].charge * mol[s] for s in meta["species"])
     zabs = sum(abs(db.species[s].charge * mol[s]) for s in meta["species"])
@@ -1186,8 +1197,9 @@ def check_row(inf, case, sol, v, row, col, meta, stats, where):
                 raise Violation("alkalinity", "%s: sum(alk_s*MOL) = %r, %s = %r (sum|alk m| = %r)"
                                 % (where, [a for a, _ in asums], lab, x, asums[0][1]))
         if len(asums) > 1 and not close(asums[0][0], asums[1][0], 0.0, abs_=TOL_REL * asums[0][1] + 1e-15):
-            stats["two_readings"] = stats.get("two_readings", 0) + 1
+            stats["two_readings_alk"] = stats.get("two_readings_alk", 0) + 1
         stats["bal"] += 1
+        stats["alk_checked"] = stats.get("alk_checked", 0) + 1
     else:
         stats["alk_unknown"] = stats.get("alk_unknown", 0) + 1
     # ---- phases: SI = log IAP - log K(T), SR = 10^SI, LK_PHASE = Python log K(T)
